@@ -231,6 +231,9 @@ func init() {
 			}
 			return &TupleV{vs: []Value{tt.BV(uint64(int64(n)), 64), nilErr()}}
 		}
+		if x.op == "uf:itoa" && len(x.args) == 1 {
+			return &TupleV{vs: []Value{x.args[0], nilErr()}} // Atoi(Itoa(n)) = n
+		}
 		ex.H.noteStub("strconv.Atoi: fails or returns an arbitrary int (uninterpreted atoi)")
 		if !ex.branch(tt.UF("atoi_valid", SBool, x), "atoi-valid") {
 			return &TupleV{vs: []Value{tt.BV(0, 64), ex.opaqueErr("strconv.Atoi: invalid syntax")}}
